@@ -99,7 +99,7 @@ struct Obs<'a> {
     constructed_key: bool,
 }
 
-fn check_key(g: &Game, pos: &Pos) -> Result<(), Fail> {
+pub fn check_key(g: &Game, pos: &Pos) -> Result<(), Fail> {
     let fresh = zobrist::hash(g);
     if g.zobrist != fresh {
         return Err(Fail::new("key:incremental_differs_from_scratch", format!("{}: carried key {:#x} but hash() gives {:#x}", pos.to_fen(), g.zobrist.0, fresh.0)));
@@ -271,7 +271,7 @@ pub fn run(run: &mut Run) -> &'static str {
     // ---- histories
     let maps = KeyMaps::new();
     let maps_ref = &maps;
-    let cases = run.tier.pick(300_000, 6_000_000);
+    let cases = run.tier.pick(700_000, 6_000_000);
     run.proptest_part("histories", RULE, hist_case(4..200), cases, |case: &HistCase, st: &mut Stats| {
         let mut obs = Obs { maps: maps_ref, path: 0, recurrences: 0, constructed_key: false };
         let mut cfg = Config::search_like(60);
@@ -304,9 +304,17 @@ pub fn run(run: &mut Run) -> &'static str {
         Ok(())
     });
 
+    let crashes: Vec<HistCase> = super::fuzzglue::campaign(run, "histories", 400_000, 12, 400).into_iter().map(HistCase::Tape).collect();
+    if !crashes.is_empty() {
+        run.exhaustive_part("fuzz_crashes", RULE, crashes, |case: &HistCase, st: &mut Stats| {
+            let mut obs = Obs { maps: maps_ref, path: 0, recurrences: 0, constructed_key: true };
+            interpret(case, &Config::search_like(60), st, &mut obs).map(|_| ())
+        });
+    }
+
     // ---- transpositions: two orders of two independent moves reach one identity, hence one key
     // (covered by the run-wide map above); twins: directed near-misses must differ in key
-    let cases = run.tier.pick(100_000, 2_000_000);
+    let cases = run.tier.pick(250_000, 2_000_000);
     run.proptest_part("twins", RULE, pos_case(6..140), cases, |case: &PosCase, st: &mut Stats| {
         let tp_data: Vec<u16> = match case {
             PosCase::Tape(t) => t.iter().rev().copied().collect(),
